@@ -13,10 +13,10 @@ LEVEL_NOTE = ("Trusted: Lean kernel (propext/Classical.choice/Quot.sound), the P
               "(b6083af float array, 8683ed7 greenhouse share in the no-relocation branch); the model mirrors the fixed code.")
 TECHNIQUE = "Lean 4 proofs over list models + differential correspondence and metamorphic re-runs of the real classes"
 DRIVER = "driver_supply"
-LEAN_MODULES = ["AllfedModel.Props.C09"]
+LEAN_MODULES = ["AllfedModel.Props.C09", "AllfedModel.Props.C09Real"]
 OBLIGATIONS = ["Allfed.C09." + n for n in """C09_net_of_greenhouses C09_net_of_greenhouses_relocation C09_net_of_greenhouses_no_relocation C09_gh_area
 C09_gh_area_refines C09_relocation_gain C09_relocation_never_lowers C09_expansion_never_lowers C09_expansion_ramp_ge_one C09_not_quantised
-C09_truncation_not_homogeneous C09_trunc_two_fifths C09_truncation_counterexample C09_greenhouse_land_counted_twice_counterexample""".split()]
+C09_truncation_not_homogeneous C09_trunc_two_fifths C09_truncation_counterexample C09_greenhouse_land_counted_twice_counterexample powOK_rpow""".split()]
 RULE = ("generated constants (crop baselines down to 1e-3 billion kcal per month, all combinations of outdoor/relocation/greenhouses/expansion, delays 0..24, "
         "horizons 12..120) through Parameters.init_outdoor_crops + init_greenhouse_params, compared pointwise with the model; on the real output: "
         "production = grown x (1 - fraction) x (1 - waste) from the implementation's own arrays, greenhouse-area shape, and three re-runs of the real code "
@@ -60,21 +60,22 @@ def correspondence(ctx):
     k = ctx.budget(1, 12)
     S.check_crops(ctx, corpus_cases(ctx), "C09", origin="corpus")
     S.variant_checks(ctx, corpus_cases(ctx), "C09")
-    cases = [S.gen_constants(rng) for _ in range(320 * k)]
-    bad = [S.gen_constants(rng, wellformed=False) for _ in range(60 * k)]
+    cases = [S.gen_constants(rng) for _ in range(600 * k)]
+    bad = [S.gen_constants(rng, wellformed=False) for _ in range(100 * k)]
     S.check_crops(ctx, cases + bad, "C09")
-    S.variant_checks(ctx, cases[:200 * k], "C09")
+    S.variant_checks(ctx, cases[:400 * k], "C09")
     rows = S.country_rows(ctx)
     crop_opts = [dict(S.BASE_OPTION, scenario=s) for s in ["all_resilient_foods", "all_resilient_foods_and_more_area", "relocated_crops", "greenhouse",
                                                            "no_resilient_foods"]]
     if ctx.quick:
-        rows = rng.sample(rows, 16)
+        rows = rng.sample(rows, 30)
         opts = crop_opts + S.gen_options(rng, 2)
     else:
         opts = crop_opts + S.gen_options(rng, 5) + [dict(o, crop_disruption="zero", NMONTHS=rng.choice([48, 84])) for o in crop_opts]
     ctx.extra["rows"] = len(rows)
     ctx.extra["option_sets_per_row"] = len(opts)
     S.check_real_rows(ctx, rows, opts, "C09")
+    S.check_real_rows(ctx, [None], S.gen_world_options(rng, ctx.budget(6, 40)), "C09")  # the world aggregate
 
 
 def search(ctx):
